@@ -794,6 +794,11 @@ def check_match_record(cx: Cx, ob: Ob) -> None:
                 opaque.append(f"getattr(.., {show(c[2][1])[:30]})")
             if (op(c[1]) == "attr" and c[1][2] in ("model_dump", "dict", "__getattribute__") and (c[1][1] == ext or op(c[1][1]) == "bv")) or (c[1] == ("builtin", "vars") and c[2]):
                 opaque.append(f"{show(c)[:30]}")
+    if not seen and not opaque:
+        # the loop over self.records compares nothing with the incoming record: the matching is done another way
+        # (the records are indexed first and the index is probed) - nothing for a comparison matrix to read
+        ob.undecide("_match_record makes no comparison between the incoming record and the records it loops over (an index is built and probed instead): the comparison cover is not read off")
+        return
     for side in (CURIE_SIDE, URI_SIDE):
         need = {(f, g) for f in side for g in side}
         missing = need - seen
